@@ -228,6 +228,42 @@ def run(ctx):
                    f"does not reach update_position_vector(`{want[:60]}`) on every path (reached with: {[g[:50] for g in got]}): the "
                    "entry keeps a stale or empty position vector although newer information was received"),
                    f"{s.fi.module.rel}:{s.node.lineno}")
+    # ---- the entry that is updated is the entry the table holds: an entry created for this packet is put into the table under
+    # the source address by a plain store (`self.loc_t[addr] = entry`), or the name is rebound to what the table kept
+    # (`entry = self.loc_t.setdefault(addr, entry)`).  `setdefault` alone keeps a stale object (an expired entry the
+    # expiry-aware lookup did not report) and the update goes to an orphan that nothing refers to.
+    n_new = 0
+    for m in P.cls(LT).methods.values():
+        for blk in ast.walk(m.node):
+            for fld in ("body", "orelse"):
+                lst = getattr(blk, fld, None)
+                if not (isinstance(lst, list) and lst and isinstance(lst[0], ast.stmt)):
+                    continue
+                for i_, st_ in enumerate(lst):
+                    if not (isinstance(st_, (ast.Assign, ast.AnnAssign)) and isinstance(getattr(st_, "value", None), ast.Call)):
+                        continue
+                    tg = [t for t in P.call_targets(m, st_.value, count=False) if isinstance(t, ClassInfo) and t.qual.endswith(LTE)]
+                    tgt = st_.targets[0] if isinstance(st_, ast.Assign) else st_.target
+                    if not tg or not isinstance(tgt, ast.Name):
+                        continue
+                    n_new += 1
+                    e = tgt.id
+                    stored = False
+                    for later in lst[i_ + 1:]:
+                        if isinstance(later, ast.Assign) and isinstance(later.targets[0], ast.Subscript) and \
+                                dotted(later.targets[0].value) == "self.loc_t" and isinstance(later.value, ast.Name) and later.value.id == e:
+                            stored = True
+                        if isinstance(later, ast.Assign) and isinstance(later.targets[0], ast.Name) and later.targets[0].id == e and \
+                                isinstance(later.value, ast.Call) and dotted(later.value.func) == "self.loc_t.setdefault" and \
+                                len(later.value.args) == 2 and isinstance(later.value.args[1], ast.Name) and later.value.args[1].id == e:
+                            stored = True
+                    ctx.ob("C08.pv-update", m.short(), f"created-entry-is-stored:{e}", stored,
+                           "the entry created for this packet is the one stored in the table" if stored else
+                           f"the LocationTableEntry created at line {st_.lineno} is not put into the table by a store (or the name is not rebound "
+                           "to what the table kept): the packet's position vector goes to an object the table does not hold, the station stays "
+                           "absent / keeps its stale entry", f"{m.module.rel}:{st_.lineno}")
+    if n_new < 6:
+        raise AnalysisError(f"C08: only {n_new} entry creations found in LocationTable (confirmed: 8)")
     ctx.floor("C08.pv-update", 8)
 
     # ---- expiry predicate (inline in refresh_table, or in a helper the table methods share)
